@@ -219,7 +219,13 @@ func (x *executor) step(m *machine, fr *frame, in ssa.Instruction) {
 		x.rangeInstr(m, fr, in)
 	case *ssa.Next:
 		x.nextInstr(m, fr, in)
-	case *ssa.Go, *ssa.Send, *ssa.Select:
+	case *ssa.Go:
+		// the spawned goroutine is not modelled: its arguments are evaluated, its effects are outside the contract
+		for _, a := range in.Call.Args {
+			x.val(m, fr, a)
+		}
+		x.note("go statement: the spawned goroutine (" + in.Call.Value.Name() + ") is not modelled; it is assumed not to write memory the function's contract speaks about")
+	case *ssa.Send, *ssa.Select:
 		panic(unsupported("concurrency instruction " + in.String() + " (function outside the verified subset)"))
 	default:
 		panic(unsupported(fmt.Sprintf("instruction %T: %s", in, in.String())))
